@@ -59,6 +59,7 @@ struct Dest
    std::vector< int>                        rv;        // DEST_RANGE
    std::bitset< 64>                         rb;        // DEST_RANGE_BITSET
    celma::container::DynamicBitset          dynb{ 8};
+   celma::container::DynamicBitset          dynb2{ 64};   // positions clear the bits (unsetFlag)
    std::string                              calls;     // value callable and bracket handlers
 
    std::string snapshot() const
@@ -82,11 +83,12 @@ struct Dest
       os_ << " b=" << b.to_string() << " vb=";
       for (bool v : vb) os_ << (v ? '1' : '0');
       os_ << " pos=[" << pos << "] cmd=[" << cmd << "] vl=" << verbose_level << verbose << version << " sub=" << sub_i << "[" << sub_s << "]";
-      if (!rv.empty() || rb.any() || dynb.count() > 0 || dynb.size() != 8)
+      if (!rv.empty() || rb.any() || dynb.count() > 0 || dynb.size() != 8 || dynb2.count() > 0 || dynb2.size() != 64)
       {
          os_ << " rv=";
          for (size_t k = 0; k < rv.size() && k < 40; ++k) os_ << rv[ k] << ",";
-         os_ << "(" << rv.size() << ") rb=" << rb.to_string() << " dynb=" << dynb.count() << "/" << dynb.size();
+         os_ << "(" << rv.size() << ") rb=" << rb.to_string() << " dynb=" << dynb.count() << "/" << dynb.size()
+             << " dynb2=" << dynb2.count() << "/" << dynb2.size();
       }
       if (!calls.empty()) os_ << " calls=" << calls;
       return os_.str();
@@ -354,6 +356,15 @@ inline void build( Handler& h, Handler* sub, Dest& d, const Json& recipe, Built&
       i3.hi = 200;
       if (sep != ',') { tryOpt( out, "dynbits setListSep", [ &] { a3->setListSep( sep); i3.sep = sep; }); }
       out.args.push_back( i3);
+      // a second one that starts with all 64 bits set; its argument clears bits
+      d.dynb2.flip();
+      auto     a4 = h.addArgument( "Z,dyn-clear", DEST_VAR( d.dynb2), "dynamic bitset, bits are cleared");
+      ArgInfo  i4{ "Z", "dyn-clear", kBits};
+      i4.once = false;
+      i4.hi = 70;
+      tryOpt( out, "dynbits unsetFlag", [ &] { a4->unsetFlag(); });
+      if (sep != ',') { tryOpt( out, "dynbits2 setListSep", [ &] { a4->setListSep( sep); i4.sep = sep; }); }
+      out.args.push_back( i4);
    }
    if (has( recipe, "R16"))
    {
@@ -571,6 +582,13 @@ inline std::vector< std::string> genValues( Rng& rng, const ArgInfo& a, bool hos
       for (size_t k = 0; k < n; ++k)
       {
          std::string  pos = std::to_string( rng.range( 0, a.hi));
+         // positions around the sizes the bit containers of the menu have
+         if (rng.chance( 1, 4))
+         {
+            static const int  edges[] = { 0, 7, 8, 9, 15, 16, 17, 39, 40, 41, 63, 64, 65 };
+            const int  e = edges[ rng.below( 13)];
+            if (e <= a.hi + 1) pos = std::to_string( e);
+         }
          // C04: positions no container can have (small enough to be cheap or
          // so large that any allocation is refused at once)
          if (hostile_strings && g_text_blocks && rng.chance( 1, 8))
